@@ -41,6 +41,8 @@ type Config struct {
 	LazyFP        bool
 	NumTokens     bool // %d of a symbolic integer yields a one-element decimal-number token
 	FPAbstract    map[string]bool // float operations replaced by an arbitrary result (mul, div, sqrt, pow)
+	FPExactIn     []string        // ... except in the body of these functions
+	FPSolver      string          // solver for one-shot float queries (default z3 4.8.12)
 	NoYield       []string // scheduling-point kinds (prefix match) that are not pre-emption points
 	ExpectPanic   bool
 }
@@ -66,6 +68,10 @@ func NewEngine(cfg *Config) *Engine {
 	}
 	e.solver = NewSolver(kind, e.ts, cfg.Timeout)
 	e.solver.lazyFP = cfg.LazyFP
+	e.solver.fpSolver = cfg.FPSolver
+	if v := os.Getenv("VERIF_FPSOLVER"); v != "" {
+		e.solver.fpSolver = v
+	}
 	return e
 }
 
